@@ -467,6 +467,37 @@ func c13Reconnecting(c *Ctx) {
 			sample = r
 		}
 	}
+	// a healthy, promptly answering peer under every schedule with one preemption (the PINGRESP may
+	// overtake the pinging task): the connection must be kept and pinged every interval
+	c.Bound("reconnecting.healthy", fmt.Sprintf("ReconnectClient with PingInterval %v, Timeout %v, broker answers every PINGREQ at once, no faults, 35 s; all schedules with P<=1: the connection is never closed, PINGREQ goes out every interval", interval, timeout))
+	{
+		var r *rcRun
+		sc := &vrt.Scenario{
+			Name:  "C13/reconnecting/healthy/P1",
+			Bound: vrt.Budget{P: 1},
+			Cfg:   vrt.Config{Horizon: int64(35 * time.Second)},
+			Body: func() {
+				rcExecuteInto(&rcCfg{KeepSession: true, PingInterval: interval, ConnTimeout: timeout}, &r)
+				if !r.connectOK {
+					return
+				}
+				if len(r.net.Conns) != 1 || r.net.Conns[0].ClosedAt >= 0 {
+					vrt.Failf("c13/healthy-connection-closed", "the broker answered every PINGREQ at once, yet the connection was given up (%d connections)\n%s", len(r.net.Conns), r.summary())
+				}
+				n := 0
+				for _, e := range r.net.Trace {
+					if e.Sent() && e.Pkt != nil && e.Pkt.Type == env.PINGREQ {
+						n++
+					}
+				}
+				if n != 3 {
+					vrt.Failf("c13/ping-period", "%d PINGREQ in 35 s with a 10 s interval, want 3\n%s", n, r.summary())
+				}
+			},
+			Observe: func() uint64 { return r.net.TraceHash() },
+		}
+		c.Explore(sc)
+	}
 	if sample != nil {
 		c.Sample(map[string]any{"workload": rcName(sample.cfg.Reqs), "faults": sample.broker.FaultLog, "wire": sample.net.TraceStrings()})
 	}
